@@ -23,3 +23,21 @@ Definition check_case (tol : float) (c : Case) : bool :=
   forallb (fun '(x, y) => closeb 0%float tol 1%float x y) (combine m (r_expect c)).
 
 Definition check_cases (tol : float) (l : list Case) : list nat := failing (map (check_case tol) l).
+
+(* ---- the default pinhole calculation grid: pinhole_extend_q + the low-|q| cut + abs ---- *)
+From SM Require Import C02.Model C03.Extend.
+Record ECase := MkECase {
+  e_q : list float; e_w : list float;      (* data points in increasing q with their widths *)
+  e_nlo : float; e_nhi : float;            (* PINHOLE_N_SIGMA *)
+  e_minres2 : float;                       (* 2 * MINIMUM_RESOLUTION *)
+  e_nlow : nat; e_nhigh : nat;             (* extension counts (ceil of a quotient, computed by the harness) *)
+  e_cutoff : float;                        (* MINIMUM_ABSOLUTE_Q * min(q) *)
+  e_expect : list float                    (* Pinhole1D(q, w).q_calc *)
+}.
+Definition extend_model (c : ECase) : list float :=
+  positive_cut FOps (e_cutoff c) (pinhole_extend FOps (e_minres2 c) (e_q c) (e_w c) (e_nlo c) (e_nhi c) (e_nlow c) (e_nhigh c)).
+Definition check_ecase (tol : float) (c : ECase) : bool :=
+  let m := extend_model c in
+  Nat.eqb (length m) (length (e_expect c)) &&
+  forallb (fun '(x, y) => closeb tol 0%float (PrimFloat.abs y) x y) (combine m (e_expect c)).
+Definition check_ecases (tol : float) (l : list ECase) : list nat := failing (map (check_ecase tol) l).
